@@ -1,5 +1,6 @@
 import Driver.Util
 import KavaVerif.Model.Earn
+import KavaVerif.Model.EarnShares
 import KavaVerif.Model.Savings
 /-!
   C11 driver. One self-contained case per line: the implementation's observed pre-state, the
@@ -17,6 +18,18 @@ import KavaVerif.Model.Savings
   c11.sav    kind a coins supported  pre  "=>" result  post
              a savings observation is 4 fields: bal(matrix) mod has dep(matrix); rows = accounts
   c11.savstate  a savings observation (after every operation of any kind)
+  c11.multi  kind v a x vaultOk stratOk nV  pre  "=>" result payout  post  ledger probes
+             the several-vault world: a state is 7 fields
+               found(per vault) tot val loose  recs(per account, `;`-separated)  bal(matrix) av(matrix)
+             a record row is the RAW stored list `d:amt|d:amt` in stored order (`x` = no record,
+             `e` = a stored empty record); d = index of the denom in the sorted denom universe
+             ledger = the harness's own log: the shares account a must hold in vault v (matrix)
+             probes = `b:v:value:class:payout:errkind` — GetVaultAccountValue of account b in a vault
+                      the log says it holds, and the outcome of withdrawing exactly that value on a
+                      discarded branch
+  c11.savrec   the RAW x/savings deposit records (rows as above)
+  c11.shares   op A B "=>" class R A'   pure VaultShares.Add / Sub: operands, result class
+               (ok | panic), result, and the first operand as it is after the call
 -/
 namespace Drv.C11
 open KV
@@ -83,6 +96,34 @@ def cmpAv (tag : String) (n : Nat) (o : VO) : String :=
 def others (n a : Nat) (p q : List Int) : Bool :=
   (idxs n).all fun b => b == a || p.getD b 0 == q.getD b 0
 
+/-- predicates of one successful Deposit / Withdraw by account `a`, on the observation of the vault
+    it addresses -/
+def opPred (kind : String) (n a : Nat) (x payout probe : Int) (pre post : VO) : String :=
+  let balA := pre.bal.getD a 0
+  let balA' := post.bal.getD a 0
+  let avA := pos0 (pre.av.getD a 0)
+  let avA' := pos0 (post.av.getD a 0)
+  let stranded := !pre.found && pre.val > 0
+  if !(others n a pre.sh post.sh) then predfail "C11_frame" "other-account-shares-changed"
+  else if !(others n a pre.bal post.bal) then predfail "C11_frame" "other-account-balance-changed"
+  else if post.loose != pre.loose then predfail "C11_frame" "module-account-balance-changed"
+  else if kind == "wd" then
+    if balA' - balA != payout then predfail "C11_withdraw_le_value" "payout-ne-balance-change"
+    else if payout > avA then predfail "C11_withdraw_le_value" "above-account-value"
+    else if payout > x then predfail "C11_withdraw_le_value" "above-request"
+    else if payout < 0 then predfail "C11_withdraw_le_value" "negative-payout"
+    else if post.val != pre.val - payout then predfail "C11_strategy_exact" "withdraw"
+    else if post.sh.getD a 0 > pre.sh.getD a 0 then predfail "C11_frame" "withdraw-raised-shares"
+    else "ok"
+  else
+    if balA' != balA - x then predfail "C11_deposit_exact" "balance"
+    else if post.val != pre.val + x then predfail "C11_strategy_exact" "deposit"
+    else if avA' > avA + x then
+      predfail "C11_deposit_withdraw_no_profit" (if stranded then "stranded-value-captured" else "value-gain")
+    else if probe > avA + x then
+      predfail "C11_deposit_withdraw_no_profit" (if stranded then "stranded-value-captured probe" else "value-gain probe")
+    else "ok"
+
 def handleEarn : Handler := fun f =>
   if f.length != 39 then badInput "arity" else
   let kind := f.getD 0 ""
@@ -134,33 +175,10 @@ def handleEarn : Handler := fun f =>
                         (if kind == "wd" then expectEq "payout" (toString (m.bal a - s.bal a)) (toString payout) else "ok")]
       | _ => "ok"
     -- (2) property predicates on the implementation's own observation
-    let balA := pre.bal.getD a 0
-    let balA' := post.bal.getD a 0
-    let avA := pos0 (pre.av.getD a 0)
-    let avA' := pos0 (post.av.getD a 0)
-    let stranded := !pre.found && pre.val > 0
     let pred :=
       if sp != "ok" then sp
       else if !(opre == opost) then predfail "C11_frame" "other-vault-changed"
-      else if !(others n a pre.sh post.sh) then predfail "C11_frame" "other-account-shares-changed"
-      else if !(others n a pre.bal post.bal) then predfail "C11_frame" "other-account-balance-changed"
-      else if post.loose != pre.loose then predfail "C11_frame" "module-account-balance-changed"
-      else if kind == "wd" then
-        if balA' - balA != payout then predfail "C11_withdraw_le_value" "payout-ne-balance-change"
-        else if payout > avA then predfail "C11_withdraw_le_value" "above-account-value"
-        else if payout > x then predfail "C11_withdraw_le_value" "above-request"
-        else if payout < 0 then predfail "C11_withdraw_le_value" "negative-payout"
-        else if post.val != pre.val - payout then predfail "C11_strategy_exact" "withdraw"
-        else if post.sh.getD a 0 > pre.sh.getD a 0 then predfail "C11_frame" "withdraw-raised-shares"
-        else "ok"
-      else
-        if balA' != balA - x then predfail "C11_deposit_exact" "balance"
-        else if post.val != pre.val + x then predfail "C11_strategy_exact" "deposit"
-        else if avA' > avA + x then
-          predfail "C11_deposit_withdraw_no_profit" (if stranded then "stranded-value-captured" else "value-gain")
-        else if probe > avA + x then
-          predfail "C11_deposit_withdraw_no_profit" (if stranded then "stranded-value-captured probe" else "value-gain probe")
-        else "ok"
+      else opPred kind n a x payout probe pre post
     first pred cmp
   | _, _, _, _, _, _, _, _, _, _, _, _ => badInput "parse"
 
@@ -271,6 +289,294 @@ def handleSavState : Handler := fun f =>
   | some o => savPred o
   | none => badInput "parse"
 
+/-! ## several vaults: raw share records -/
+
+open Earn.Shares in
+def showShares (l : Earn.Shares) : String :=
+  if l.isEmpty then "-" else "|".intercalate (l.map fun e => s!"{e.1}:{e.2}")
+
+def entries? (s : String) : Option Earn.Shares :=
+  (strs s "|").mapM fun e =>
+    match e.splitOn ":" with
+    | [d, n] => match nat? d, int? n with
+      | some d, some n => some (d, n)
+      | _, _ => none
+    | _ => none
+
+/-- a record row: (a record is stored, its raw entries) -/
+def row? (s : String) : Option (Bool × Earn.Shares) :=
+  let t := s.trimAscii.toString
+  if t == "x" then some (false, []) else if t == "e" then some (true, []) else (entries? t).map fun l => (true, l)
+
+def rows? (s : String) : Option (List (Bool × Earn.Shares)) := (s.splitOn ";").mapM row?
+
+structure MO where
+  found : List Bool
+  tot : List Int
+  val : List Int
+  loose : List Int
+  recs : List (Bool × Earn.Shares)
+  bal : List (List Int)
+  av : List (List Int)
+deriving BEq
+
+def parseMO (f : List String) (i : Nat) : Option MO :=
+  match bools? (f.getD i ""), ints? (f.getD (i+1) ""), ints? (f.getD (i+2) ""), ints? (f.getD (i+3) ""),
+        rows? (f.getD (i+4) ""), matrix? (f.getD (i+5) ""), matrix? (f.getD (i+6) "") with
+  | some fo, some tot, some val, some loose, some recs, some bal, some av => some ⟨fo, tot, val, loose, recs, bal, av⟩
+  | _, _, _, _, _, _, _ => none
+
+def MO.shr (o : MO) (a : Nat) : Earn.Shares := (o.recs.getD a (false, [])).2
+
+/-- all shares of denom `v` in a raw record (every entry counts, duplicates included) -/
+def sumFor (l : Earn.Shares) (v : Nat) : Int := sumL ((l.filter fun e => e.1 == v).map (·.2))
+
+def MO.core (o : MO) (v : Nat) : Earn.VCore :=
+  ⟨o.found.getD v false, o.tot.getD v 0, o.val.getD v 0, o.loose.getD v 0⟩
+
+def mstOf (o : MO) : Earn.MSt :=
+  { recs := o.shr, vault := o.core, bal := fun a v => at2 o.bal a v }
+
+/-- the single-vault observation of vault `v` inside a several-vault observation -/
+def MO.vo (o : MO) (nA v : Nat) : VO :=
+  { found := o.found.getD v false, tot := o.tot.getD v 0, sh := (idxs nA).map fun a => sumFor (o.shr a) v,
+    av := (idxs nA).map fun a => pos0 (at2 o.av a v), val := o.val.getD v 0, loose := o.loose.getD v 0,
+    bal := (idxs nA).map fun a => at2 o.bal a v }
+
+/-- every stored record is a sorted, duplicate-free list of positive shares of known vaults, and a
+    stored record is never empty -/
+def recPred (nV : Nat) (o : MO) : String :=
+  let bad := (idxs o.recs.length).find? fun a =>
+    let r := o.recs.getD a (false, [])
+    !(Earn.Shares.isValid r.2) || r.2.any (fun e => e.1 ≥ nV) || (r.1 && r.2.isEmpty)
+  match bad with
+  | none => "ok"
+  | some a =>
+    let r := o.recs.getD a (false, [])
+    let why := if r.1 && r.2.isEmpty then "stored-empty-record"
+      else if r.2.any (fun e => e.1 ≥ nV) then "unknown-vault-denom"
+      else if r.2.any (fun e => e.2 ≤ 0) then "non-positive-share"
+      else "unsorted-or-duplicate-denom"
+    predfail "C11_multi_record_valid" s!"{why} acct={a} record={showShares r.2}"
+
+/-- per vault: total shares = Σ over the accounts of their shares of that vault -/
+def sumPred (nV : Nat) (o : MO) : String :=
+  let nA := o.recs.length
+  match (idxs nV).find? fun v => o.tot.getD v 0 != sumL ((idxs nA).map fun a => sumFor (o.shr a) v) with
+  | some v => predfail "C11_multi_shares_sum" s!"total-ne-sum-of-account-shares vault={v}"
+  | none =>
+    match (idxs nV).find? fun v => o.found.getD v false != (o.tot.getD v 0 != 0) with
+    | some v => predfail "C11_multi_shares_sum" s!"record-vs-total vault={v}"
+    | none => "ok"
+
+/-- frame of a successful operation of account `a` on vault `v` -/
+def framePred (nV a v : Nat) (pre post : MO) : String :=
+  let nA := pre.recs.length
+  let oth := (idxs nA).filter (· != a)
+  if oth.any fun b => pre.recs.getD b (false, []) != post.recs.getD b (false, []) then
+    predfail "C11_multi_frame" "other-account-record-changed"
+  else if oth.any fun b => pre.bal.getD b [] != post.bal.getD b [] then
+    predfail "C11_multi_frame" "other-account-balance-changed"
+  else
+    let ra := pre.shr a
+    let ra' := post.shr a
+    match (idxs nV).find? fun w => w != v && sumFor ra w != sumFor ra' w with
+    | some w => predfail "C11_multi_frame" s!"same-account-other-vault-shares-changed vault={w} op-vault={v}"
+    | none =>
+      if (ra.filter fun e => e.1 != v) != (ra'.filter fun e => e.1 != v) then
+        predfail "C11_multi_frame" s!"same-account-other-vault-entries-changed op-vault={v}"
+      else match (idxs nV).find? fun w => w != v && pre.core w != post.core w with
+      | some w => predfail "C11_multi_frame" s!"other-vault-changed vault={w} op-vault={v}"
+      | none =>
+        match (idxs nV).find? fun w => w != v && at2 pre.bal a w != at2 post.bal a w with
+        | some w => predfail "C11_multi_frame" s!"other-denom-balance-changed denom={w}"
+        | none =>
+          match (idxs nV).find? fun w => w != v && (idxs nA).any fun b => pos0 (at2 pre.av b w) != pos0 (at2 post.av b w) with
+          | some w => predfail "C11_multi_frame" s!"other-vault-account-value-changed vault={w}"
+          | none => "ok"
+
+/-- the accounts hold exactly what the harness's own log of deposits and withdrawals says -/
+def ledgerPred (nV : Nat) (o : MO) (ledger : List (List Int)) : String :=
+  let nA := o.recs.length
+  let bad := (idxs nA).findSome? fun a =>
+    ((idxs nV).find? fun v => sumFor (o.shr a) v != at2 ledger a v || Earn.Shares.amountOf (o.shr a) v != at2 ledger a v).map
+      fun v => (a, v)
+  match bad with
+  | some (a, v) => predfail "C11_multi_ledger" s!"shares-ne-log acct={a} vault={v} log={at2 ledger a v} record={showShares (o.shr a)}"
+  | none => "ok"
+
+structure Probe where
+  b : Nat
+  v : Nat
+  value : Int
+  cls : String
+  payout : Int
+  ek : String
+
+def probes? (s : String) : Option (List Probe) :=
+  (strs s ",").mapM fun p =>
+    match p.splitOn ":" with
+    | [b, v, value, cls, payout, ek] =>
+      match nat? b, nat? v, int? value, int? payout with
+      | some b, some v, some value, some payout => some ⟨b, v, value, cls, payout, ek⟩
+      | _, _, _, _ => none
+    | _ => none
+
+/-- "an account can always withdraw its redeemable value from every vault it holds": for a vault the
+    log says account b holds, the keeper reports the value of the logged shares and a withdrawal of
+    exactly that value is paid -/
+def probePred (o : MO) (ledger : List (List Int)) (p : Probe) : String :=
+  let c := o.core p.v
+  let logSt : Earn.St := { found := c.found, tot := c.tot, sh := fun _ => at2 ledger p.b p.v, val := c.val,
+                           loose := c.loose, bal := fun _ => 0 }
+  let tag := s!"acct={p.b} vault={p.v}"
+  if p.value < 0 then predfail "C11_multi_withdrawable" s!"account-value-error {tag}"
+  else match Earn.convertToAssets logSt (at2 ledger p.b p.v) with
+    | .ok want =>
+      if want != p.value then predfail "C11_multi_withdrawable" s!"value-ne-value-of-logged-shares {tag} reported={p.value} logged={want}"
+      else if p.value == 0 then "ok"
+      else if c.val > c.tot then "ok"   -- share price above 10^18 coins per share: outside the theorem's hypothesis
+      else if p.cls != "ok" then predfail "C11_multi_withdrawable" s!"withdraw-of-own-value-refused {tag} class={p.cls} err={p.ek}"
+      else if p.payout > p.value || p.payout < 0 then predfail "C11_multi_withdrawable" s!"payout-out-of-range {tag}"
+      else "ok"
+    | _ => predfail "C11_multi_withdrawable" s!"logged-shares-have-no-value {tag}"
+
+/-- the model's prediction of a probe: `Withdraw(value)` on the view of the observed state -/
+def probeCmp (o : MO) (p : Probe) : String :=
+  if p.value <= 0 then "ok" else
+  let s := Earn.view (mstOf o) p.v
+  match Earn.withdraw s p.b p.value true true with
+  | .ok s' => allOk [expectEq "probe.class" "ok" p.cls, expectEq "probe.payout" (toString (s'.bal p.b - s.bal p.b)) (toString p.payout)]
+  | .err => expectEq "probe.class" "err" p.cls
+  | .panic => expectEq "probe.class" "panic" p.cls
+
+def cmpMulti (nV : Nat) (m : Earn.MSt) (o : MO) : String :=
+  let nA := o.recs.length
+  allOk ([expectEq "recs" (";".intercalate ((idxs nA).map fun a => showShares (m.recs a)))
+                         (";".intercalate ((idxs nA).map fun a => showShares (o.shr a))),
+          expectEq "stored" (",".intercalate ((idxs nA).map fun a => showB (!(m.recs a).isEmpty)))
+                           (",".intercalate (o.recs.map fun r => showB r.1))] ++
+         (idxs nV).map (fun v =>
+           let c := m.vault v
+           let d := o.core v
+           expectEq s!"vault{v}" s!"{showB c.found},{c.tot},{c.val},{c.loose}" s!"{showB d.found},{d.tot},{d.val},{d.loose}") ++
+         [expectEq "bal" (";".intercalate ((idxs nA).map fun a => showInts ((idxs nV).map (m.bal a))))
+                         (";".intercalate (o.bal.map showInts))])
+
+/-- the model's `redeemable` against the observed GetVaultAccountValue, every (account, vault) -/
+def cmpAvMulti (nV : Nat) (tag : String) (o : MO) : String :=
+  let nA := o.recs.length
+  let m := mstOf o
+  allOk ((idxs nV).map fun v =>
+    let s := Earn.view m v
+    expectEq s!"av{tag}.vault{v}"
+      (showInts ((idxs nA).map fun a => match Earn.convertToAssets s (s.sh a) with | .ok x => pos0 x | _ => 0))
+      (showInts ((idxs nA).map fun a => pos0 (at2 o.av a v))))
+
+def handleMulti : Handler := fun f =>
+  if f.length != 26 then badInput "arity" else
+  let kind := f.getD 0 ""
+  match nat? (f.getD 1 ""), nat? (f.getD 2 ""), int? (f.getD 3 ""), bool? (f.getD 4 ""), bool? (f.getD 5 ""),
+        nat? (f.getD 6 ""), parseMO f 7, int? (f.getD 16 ""), parseMO f 17, matrix? (f.getD 24 ""), probes? (f.getD 25 "") with
+  | some v, some a, some x, some vaultOk, some stratOk, some nV, some pre, some payout, some post, some ledger, some probes =>
+    let result := f.getD 15 ""
+    let nA := pre.recs.length
+    if v ≥ nV || (a ≥ nA && kind != "accrue") then badInput "index" else
+    let first := fun (p c : String) => if p != "ok" then p else c
+    -- state predicates on the observed post-state (every vault, every record)
+    let sp := allOk ([recPred nV post, sumPred nV post] ++
+                     (idxs nV).map (fun w => vaultPred s!"multi-vault{w}" (post.vo nA w)) ++
+                     [ledgerPred nV post ledger])
+    let pp := allOk (probes.map (probePred post ledger))
+    let avc := allOk [cmpAvMulti nV "" pre, cmpAvMulti nV "'" post]
+    let pc := allOk (probes.map (probeCmp post))
+    let m := mstOf pre
+    if kind == "accrue" then
+      -- environment step on every vault at once: the model takes the observed growth as its input
+      let mono := allOk ((idxs nV).map fun w =>
+        if post.val.getD w 0 < pre.val.getD w 0 then predfail "C11_accrue_monotone" s!"value-decreased multi-vault{w}" else "ok")
+      let same := if { post with val := pre.val, av := pre.av } == pre then "ok"
+                  else predfail "C11_multi_frame" "accrual-changed-records"
+      let mm := (idxs nV).foldl (fun (acc : Option Earn.MSt) w =>
+        match acc with
+        | none => none
+        | some mm => match Earn.mstep mm w (.accrue (post.val.getD w 0 - pre.val.getD w 0)) with
+          | .ok m' => some m'
+          | _ => none) (some m)
+      first (allOk [sp, mono, same, pp])
+        (match mm with | some m' => allOk [avc, cmpMulti nV m' post, pc] | none => mismatch "accrue" "err" "ok")
+    else if kind != "dep" && kind != "wd" then badInput "kind"
+    else
+    let op : Earn.Op := if kind == "dep" then .deposit a x vaultOk stratOk true else .withdraw a x vaultOk stratOk
+    let res := Earn.mstep m v op
+    let modelCls := match res with | .ok _ => "ok" | .err => "err" | .panic => "panic"
+    if result == "panic" then predfail "C11_no_panic" s!"{kind} several-vaults"
+    else if result != "ok" then
+      first (allOk [sp, (if pre == post then "ok" else predfail "C11_multi_frame" "failed-op-changed-state"), pp])
+        (allOk [avc, (if modelCls != result then mismatch "result" modelCls result else "ok"), pc])
+    else
+    let cmp := if modelCls != result then mismatch "result" modelCls result else
+      match res with
+      | .ok m' => allOk [avc, cmpMulti nV m' post,
+                         (if kind == "wd" then expectEq "payout" (toString (m'.bal a v - m.bal a v)) (toString payout) else "ok"), pc]
+      | _ => "ok"
+    -- the frame first: it fails at the very operation that touched what it must not touch, the state
+    -- predicates keep failing on every later state of the sequence
+    let pred := allOk [framePred nV a v pre post, sp,
+                       opPred kind nA a x payout (-1) (pre.vo nA v) (post.vo nA v), pp]
+    first pred cmp
+  | _, _, _, _, _, _, _, _, _, _, _ => badInput "parse"
+
+/-- raw x/savings deposit records: sorted, duplicate-free, positive coins; a stored record is not empty -/
+def handleSavRec : Handler := fun f =>
+  if f.length != 1 then badInput "arity" else
+  match rows? (f.getD 0 "") with
+  | some rs =>
+    match (idxs rs.length).find? fun a =>
+        let r := rs.getD a (false, [])
+        !(Earn.Shares.isValid r.2) || (r.1 && r.2.isEmpty) with
+    | some a => predfail "C11_savings_record_valid" s!"party={a} record={showShares (rs.getD a (false, [])).2}"
+    | none => "ok"
+  | none => badInput "parse"
+
+/-! ## pure VaultShares.Add / Sub -/
+
+def showR (r : Earn.R Earn.Shares) : String :=
+  match r with
+  | .ok l => s!"ok {showShares l}"
+  | .err => "err"
+  | .panic => "panic"
+
+def handleShares : Handler := fun f =>
+  if f.length != 7 then badInput "arity" else
+  let op := f.getD 0 ""
+  match entries? (f.getD 1 ""), entries? (f.getD 2 ""), entries? (f.getD 5 ""), entries? (f.getD 6 "") with
+  | some A, some B, some R, some A' =>
+    let cls := f.getD 4 ""
+    if op != "add" && op != "sub" then badInput "op" else
+    let name := if op == "add" then "C11_shares_add_spec" else "C11_shares_sub_spec"
+    let model := if op == "add" then Earn.Shares.add A B else Earn.Shares.sub A B
+    let impl := if cls == "ok" then s!"ok {showShares R}" else cls
+    let cmp := expectEq op (showR model) impl
+    -- the hypotheses of the theorem: a valid record, strictly sorted non-negative operand shares,
+    -- for Sub none of them above the record
+    let sortedB := Earn.Shares.isValid (B.map fun e => (e.1, e.2 + 1)) && B.all (fun e => e.2 ≥ 0)
+    let ds := (A ++ B ++ R).map (·.1)
+    let hyp := Earn.Shares.isValid A && sortedB &&
+      (op == "add" || ds.all fun d => Earn.Shares.amountOf B d ≤ Earn.Shares.amountOf A d)
+    let sign : Int := if op == "add" then 1 else -1
+    let pred :=
+      if A' != A then predfail name s!"operand-mutated before={showShares A} after={showShares A'}"
+      else if !hyp then "ok"
+      else if cls != "ok" then predfail name s!"panic A={showShares A} B={showShares B}"
+      else if !(Earn.Shares.isValid R) then predfail name s!"result-not-sorted-duplicate-free-positive A={showShares A} B={showShares B} R={showShares R}"
+      else match ds.find? fun d => sumFor R d != Earn.Shares.amountOf A d + sign * Earn.Shares.amountOf B d with
+        | some d => predfail name s!"amount denom={d} A={showShares A} B={showShares B} R={showShares R}"
+        | none => "ok"
+    if pred != "ok" then pred else cmp
+  | _, _, _, _ => badInput "parse"
+
 def handlers : List (String × Handler) :=
-  [("c11.earn", handleEarn), ("c11.sav", handleSav), ("c11.savstate", handleSavState)]
+  [("c11.earn", handleEarn), ("c11.sav", handleSav), ("c11.savstate", handleSavState),
+   ("c11.multi", handleMulti), ("c11.savrec", handleSavRec), ("c11.shares", handleShares)]
 end Drv.C11
